@@ -201,6 +201,13 @@ class LogFamily(Family):
                 L.append(self.line([f"mt:{lay.token()}", f"lb:{hx(big)}:{hx(o1)}"] + wr[:2] + [f"lb:{hx(small)}:{hx(o2)}"] + wr[:6]
                                    + [f"add:{newtok}"] + wn[:4]))
                 L.append(self.line([f"mt:{lay.token()}", f"lb:{hx(need)}:{hx(o1)}", f"lb:{hx(small)}:{hx(o2)}"] + wr[:8]))
+                # … and a region that joins afterwards at a LOW address (one the refused log would have covered) is logged in the
+                # accepted log, not in the refused one
+                if lay.regs[0][0] >= 2:
+                    L.append(self.line([f"mt:{lay.token()}", f"lb:{hx(need)}:{hx(o1)}", f"lb:{hx(small)}:{hx(o2)}", "add:0/1000", "w:0:1",
+                                        "w:fff:1"] + wr[:3]))
+                    L.append(self.line([f"mt:{lay.token()}", f"lb:{hx(need)}:{hx(o1)}"] + wr[:1] + [f"lb:{hx(small)}:{hx(o2)}", "add:1000/1000",
+                                        "w:1000:1000", "w:1001:1"]))
                 L.append(self.line([f"mt:{lay.token()}", f"lb:{hx(need)}:{hx(o1)}", "lb:0:0"] + wr[:4] + [f"lb:{hx(need)}:{hx(o2)}"] + wr[:4]))
         # concurrent writers on the bits of one byte (region of 16 pages starting at a multiple of 8)
         rounds = 10000 if thorough else 150
